@@ -233,6 +233,13 @@ func newNetwork(cfg Config) (*Network, error) {
 		nw.KeyHash0 = append(nw.KeyHash0, statehash.ValueHash(&cfg.EdKeys[i]))
 	}
 	ec := cfg.Proto.Curve()
+	// ... and its own curve object where the library builds one per call (tss.Edwards(); secp256k1 is a singleton)
+	ownEC := func() elliptic.Curve {
+		if !cfg.SharedIDObjects && tss.SameCurve(ec, tss.Edwards()) {
+			return tss.Edwards()
+		}
+		return ec
+	}
 	// Every party holds its OWN objects, as separate processes do: its own PartyID object (same id, moniker,
 	// key and index as its entry in the sorted list, but not the same pointer), its own peer contexts with
 	// their own PartyID objects, and the `from` ids the transport hands over are yet other objects.
@@ -284,7 +291,7 @@ func newNetwork(cfg Config) (*Network, error) {
 		ctx := tss.NewPeerContext(ids)
 		for i, id := range ids {
 			n := mk(i, "", id)
-			p := tss.NewParameters(ec, ownCtx(ctx), own(id), len(ids), cfg.Threshold)
+			p := tss.NewParameters(ownEC(), ownCtx(ctx), own(id), len(ids), cfg.Threshold)
 			setRand(n, p)
 			if cfg.Proto == EcdsaKeygen {
 				n.endKG = make(chan *eckg.LocalPartySaveData, 16)
@@ -307,7 +314,7 @@ func newNetwork(cfg Config) (*Network, error) {
 		ctx := tss.NewPeerContext(ids)
 		for i, id := range ids {
 			n := mk(i, "", id)
-			p := tss.NewParameters(ec, ownCtx(ctx), own(id), len(ids), cfg.Threshold)
+			p := tss.NewParameters(ownEC(), ownCtx(ctx), own(id), len(ids), cfg.Threshold)
 			setRand(n, p)
 			n.endSig = make(chan *common.SignatureData, 16)
 			var key *eckg.LocalPartySaveData
@@ -337,7 +344,7 @@ func newNetwork(cfg Config) (*Network, error) {
 		ctx := tss.NewPeerContext(ids)
 		for i, id := range ids {
 			n := mk(i, "", id)
-			p := tss.NewParameters(ec, ownCtx(ctx), own(id), len(ids), cfg.Threshold)
+			p := tss.NewParameters(ownEC(), ownCtx(ctx), own(id), len(ids), cfg.Threshold)
 			setRand(n, p)
 			n.endSig = make(chan *common.SignatureData, 16)
 			var key *edkg.LocalPartySaveData
@@ -375,7 +382,7 @@ func newNetwork(cfg Config) (*Network, error) {
 		nw.OldN = len(oldIDs)
 		for i, id := range oldIDs {
 			n := mk(i, "old", id)
-			p := tss.NewReSharingParameters(ec, ownCtx(oldCtx), ownCtx(newCtx), own(id), oldN, cfg.Threshold, len(newIDs), cfg.NewThreshold)
+			p := tss.NewReSharingParameters(ownEC(), ownCtx(oldCtx), ownCtx(newCtx), own(id), oldN, cfg.Threshold, len(newIDs), cfg.NewThreshold)
 			setRand(n, p.Parameters)
 			if cfg.NoProofMod {
 				p.SetNoProofMod()
@@ -404,7 +411,7 @@ func newNetwork(cfg Config) (*Network, error) {
 		}
 		for i, id := range newIDs {
 			n := mk(len(oldIDs)+i, "new", id)
-			p := tss.NewReSharingParameters(ec, ownCtx(oldCtx), ownCtx(newCtx), own(id), oldN, cfg.Threshold, len(newIDs), cfg.NewThreshold)
+			p := tss.NewReSharingParameters(ownEC(), ownCtx(oldCtx), ownCtx(newCtx), own(id), oldN, cfg.Threshold, len(newIDs), cfg.NewThreshold)
 			setRand(n, p.Parameters)
 			if cfg.NoProofMod {
 				p.SetNoProofMod()
